@@ -442,4 +442,32 @@ theorem generated_processAcquirePriv_eq (matchP : Level → Bytes → Bool) (o :
         simp only [hb, hb2, h1, h2, if_false, Bool.false_eq_true, hidx0, hat0, Bool.not_true]
         exact tail p0
 
+/-- `util.StringSliceContains` (the candidate tests of `processAcquirePriv`) as translated from the
+current source is list membership — what the translator renders its call sites as -/
+theorem generated_stringSliceContains_eq (ss : List Bytes) (s : Bytes) :
+    Gen.Bodies.Priv.stringSliceContains ss s = ss.contains s := by
+  unfold Gen.Bodies.Priv.stringSliceContains Go.forRange
+  rw [Go.forRangeFrom_find (fun x => x == s) (fun _ => true)]
+  induction ss with
+  | nil => simp
+  | cons a l ih =>
+    simp only [List.find?, List.contains_cons]
+    by_cases h : a = s
+    · simp [h]
+    · have h1 : (a == s) = false := by simpa using h
+      have h2 : (s == a) = false := by simpa using (Ne.symm h)
+      simp [h1, h2, ih]
+
+/-- `util.StringContainsAny` (the not-contains test of `determineCurrentPriv`) as translated from the
+current source: some element of the list is a substring of the text -/
+theorem generated_stringContainsAny_eq (s : Bytes) (l : List Bytes) :
+    Gen.Bodies.Priv.stringContainsAny s l = l.any (fun ss => isInfix ss s) := by
+  unfold Gen.Bodies.Priv.stringContainsAny Go.forRange
+  rw [Go.forRangeFrom_find (fun ss => isInfix ss s) (fun _ => true)]
+  induction l with
+  | nil => simp
+  | cons a l ih =>
+    simp only [List.find?, List.any]
+    cases h : isInfix a s <;> simp [ih]
+
 end Scrapli.Priv.C04
